@@ -1272,6 +1272,8 @@ where
     /// Process all valid subscriptions in an endless loop, checking for changes
     /// and reporting them to the peers.
     async fn process_subscriptions(&self, matter: &Matter<'_>) -> Result<(), Error> {
+        let mut sessions_generation = matter.transport().session_removed_generation();
+
         loop {
             // Sleep until the soonest subscription deadline: the end of a
             // `min_int` quiet period for a subscription holding back a change,
@@ -1280,7 +1282,9 @@ where
             // notifies) all wake the loop early. With no subscription there is
             // no deadline, so just wait to be notified.
             let mut notification = pin!(self.state.subscriptions.notification.wait());
-            let mut session_removed = pin!(matter.transport().wait_session_removed());
+            let mut session_removed = pin!(matter
+                .transport()
+                .wait_session_removed_since(sessions_generation));
 
             // With no subscription (or none primed) the deadline is `Instant::MAX`,
             // so the timer effectively never fires and the loop just waits to be
@@ -1292,6 +1296,9 @@ where
             let mut timeout = pin!(Timer::at(deadline));
 
             select3(&mut notification, &mut timeout, &mut session_removed).await;
+
+            // A session removed while the pass below is running wakes the next iteration
+            sessions_generation = matter.transport().session_removed_generation();
 
             let now = Instant::now();
 
